@@ -81,6 +81,9 @@ def build_cid(text):
 def set_header(cid, header):
     """what DataFormat.header's setter does after its range check (assume instead of assert)"""
     assume(header >= 0)
+    if not hasattr(cid.data_format, "_header"):
+        from .engine import HarnessOutOfDate
+        raise HarnessOutOfDate("DataFormat no longer keeps the header count in '_header': vlib/rowflow.set_header must follow")
     cid.data_format._header = header
 
 
